@@ -13,7 +13,7 @@ det = {}
 for f in os.listdir(d):
     mm = re.match(r'detect_(C\d\d)\.log$', f)
     if mm:
-        txt = open(os.path.join(d, f)).read()
+        txt = open(os.path.join(d, f), errors='replace').read()
         lines = [l for l in txt.splitlines() if l.startswith('VIOLATION') or l.startswith('  key=')]
         det[mm.group(1)] = {"violation_lines": sum(1 for l in lines if l.startswith('VIOLATION')),
                             "first": [l.strip()[:300] for l in lines[:4]]}
